@@ -33,6 +33,7 @@ type SliceV struct {
 	Nil           string // Bool term
 	Prov          string // provenance tag for C07: "input" | "fresh" | "field" | "const" | "callee" | ""
 	IsStr         bool
+	Id            string // ghost: the element id this value was read from (list element / map key of string or bytes kind)
 }
 
 // ListV: slices of other element types, value semantics.
@@ -41,6 +42,8 @@ type ListV struct {
 	Nil        string
 	ElemT      types.Type
 	Prov       string
+	PermOf     *MapV // ghost: this list enumerates the keys of that map (each key exactly once)
+	Sorted     bool  // ghost: sorted by the key order
 }
 
 type MapV struct {
@@ -141,25 +144,28 @@ type Ctx struct {
 	wrapIdx   map[string]int
 	specEnv   map[string]Val // extra ghost bindings visible to contract expressions
 
-	loopSpecFor   func(c *Ctx, ord int, loop ast.Stmt) *LoopSpec
-	callHook      func(c *Ctx, x *ast.CallExpr, st *State) ([]Val, bool)
-	stmtHook      func(c *Ctx, s ast.Stmt, st *State) (Flow, bool)
-	noSafeNil     bool
-	onCase        func(c *Ctx, cc *ast.CaseClause, st *State)
-	curResults    []types.Object
-	resTypes      []types.Type
-	panicOK       string
-	onCaseExit    func(c *Ctx, cc *ast.CaseClause, entry, end *State)
-	curPos        token.Pos
-	content       bool
-	aliasStores   []StoreRec
-	nilElemStores []ElemStore
-	qn            int
-	mu            sync.Mutex
-	noDef         bool
-	preambleCache string
-	allocs        []AllocRec
-	usedSpecs     map[string]bool
+	loopSpecFor    func(c *Ctx, ord int, loop ast.Stmt) *LoopSpec
+	callHook       func(c *Ctx, x *ast.CallExpr, st *State) ([]Val, bool)
+	stmtHook       func(c *Ctx, s ast.Stmt, st *State) (Flow, bool)
+	noSafeNil      bool
+	onCase         func(c *Ctx, cc *ast.CaseClause, st *State)
+	curResults     []types.Object
+	resTypes       []types.Type
+	panicOK        string
+	mergeA, mergeB *State
+	inHook         bool
+	funcLits       map[types.Object]*ast.FuncLit
+	onCaseExit     func(c *Ctx, cc *ast.CaseClause, entry, end *State)
+	curPos         token.Pos
+	content        bool
+	aliasStores    []StoreRec
+	nilElemStores  []ElemStore
+	qn             int
+	mu             sync.Mutex
+	noDef          bool
+	preambleCache  string
+	allocs         []AllocRec
+	usedSpecs      map[string]bool
 }
 
 type PanicRec struct {
@@ -290,7 +296,10 @@ func (c *Ctx) mergeVal(g string, a, b Val) Val {
 			r.Region = x.Region
 		} else if x.Region != "" || y.Region != "" {
 			// different backing stores: keep a content snapshot only (reads stay exact, writes are refused)
-			return nil
+			if c.mergeA == nil || c.mergeB == nil {
+				return nil
+			}
+			r.Arr = c.ite(g, c.sliceArr(c.mergeA, x), c.sliceArr(c.mergeB, y), c.byteArrSort())
 		} else {
 			r.Arr = c.ite(g, x.Arr, y.Arr, c.byteArrSort())
 		}
@@ -357,6 +366,8 @@ func (c *Ctx) merge(a, b *State) *State {
 	}
 	n := &State{env: map[types.Object]Val{}, heap: map[string]string{}}
 	n.guard = c.defRaw("g", "Bool", or(a.guard, b.guard))
+	c.mergeA, c.mergeB = a, b
+	defer func() { c.mergeA, c.mergeB = nil, nil }()
 	for k, va := range a.env {
 		if vb, ok := b.env[k]; ok {
 			if mv := c.mergeVal(a.guard, va, vb); mv != nil {
